@@ -70,9 +70,72 @@ def Consistent (d : Dev) : Prop :=
   FlagTracksLoop d ∧ d.enabled = d.loopFlag ∧ d.lock = (if d.loopFlag then 1 else 0) ∧
     d.acquiring = d.loopFlag
 
+/-- The loaded description (if any) is the complete one (`TLParamsLocked`, `AcquisitionStart`,
+`AcquisitionStop` present with the right interface), and streaming implies a description. -/
+def CtxtOk (d : Dev) : Prop :=
+  (d.ctxt = none ∨ d.ctxt = some Xml.full) ∧ (d.loopFlag = true → d.ctxt = some Xml.full)
+
+/-- Consistent acquisition state with a complete description. -/
+def Good (d : Dev) : Prop := Consistent d ∧ CtxtOk d
+
 /-- State required after `close`. -/
 def Clean (d : Dev) : Prop :=
   d.loopFlag = false ∧ d.loops = 0 ∧ d.lock = 0 ∧ d.enabled = false ∧ d.acquiring = false ∧
     d.ctrlOpen = false ∧ d.strmOpen = false ∧ d.cache = Cache.empty
+
+/-! ### The device-visible state as a function of the effect trace alone -/
+
+/-- What the device / the handles hold, as far as the camera's calls can change it. -/
+structure Visible where
+  ctrlOpen : Bool := false
+  strmOpen : Bool := false
+  enabled : Bool := false
+  lock : Nat := 0
+  acquiring : Bool := false
+  deriving Repr, DecidableEq
+
+/-- A successful effect changes the visible state; a failed one changes nothing. -/
+def applyEffect (v : Visible) (e : Effect) : Visible :=
+  match e.out, e.sub with
+  | .ok, .ctrlOpen => { v with ctrlOpen := true }
+  | .ok, .ctrlClose => { v with ctrlOpen := false }
+  | .ok, .strmOpen => { v with strmOpen := true }
+  | .ok, .strmClose => { v with strmOpen := false }
+  | .ok, .enable => { v with enabled := true }
+  | .ok, .disable => { v with enabled := false }
+  | .ok, .lockSet x => { v with lock := x }
+  | .ok, .acqStart => { v with acquiring := true }
+  | .ok, .acqStop => { v with acquiring := false }
+  | _, _ => v
+
+/-- Replay of a trace (oldest effect first) from the initial device. -/
+def visibleOf (t : List Effect) : Visible := t.foldl applyEffect {}
+
+def Dev.visible (d : Dev) : Visible :=
+  { ctrlOpen := d.ctrlOpen, strmOpen := d.strmOpen, enabled := d.enabled, lock := d.lock,
+    acquiring := d.acquiring }
+
+/-! ### The acquisition protocol as a property of a whole trace -/
+
+/-- The effects that must DIRECTLY precede an attempt of the given sub-operation (whether the
+attempt then succeeds or fails), all of them successful:
+* `TLParamsLocked := 1` — only directly after a successful `enable_streaming`;
+* `AcquisitionStart` — only directly after enable, `TLParamsLocked := 1`;
+* loop start — only directly after enable, `TLParamsLocked := 1`, `AcquisitionStart`;
+* `AcquisitionStop` — only directly after a successful loop stop;
+* `TLParamsLocked := 0` — only directly after loop stop, `AcquisitionStop`;
+* `disable_streaming` — only directly after loop stop, `AcquisitionStop`, `TLParamsLocked := 0`. -/
+def requiredBefore : Sub → List Effect
+  | .lockSet 1 => [⟨.enable, .ok⟩]
+  | .acqStart => [⟨.enable, .ok⟩, ⟨.lockSet 1, .ok⟩]
+  | .loopStart => [⟨.enable, .ok⟩, ⟨.lockSet 1, .ok⟩, ⟨.acqStart, .ok⟩]
+  | .acqStop => [⟨.loopStop, .ok⟩]
+  | .lockSet 0 => [⟨.loopStop, .ok⟩, ⟨.acqStop, .ok⟩]
+  | .disable => [⟨.loopStop, .ok⟩, ⟨.acqStop, .ok⟩, ⟨.lockSet 0, .ok⟩]
+  | _ => []
+
+/-- Every effect of the trace is directly preceded by what `requiredBefore` demands. -/
+def ProtocolOrdered (t : List Effect) : Prop :=
+  ∀ pre e post, t = pre ++ e :: post → ∃ pre', pre = pre' ++ requiredBefore e.sub
 
 end CamVerif.Camera
